@@ -41,7 +41,7 @@ def main():
       "hooks":{
         "guard":"verif-hooks",
         "enable":"cargo feature `verif-hooks` of the alpenglow crate, enabled by /verif/sim/Cargo.toml (path dependency on /repo)",
-        "baseline_off_cmd":"cd /repo && cargo nextest run --workspace --no-fail-fast --test-threads 8 --offline || cargo test --workspace --no-fail-fast --offline",
+        "baseline_off_cmd":"cd /repo && cargo test --workspace --no-fail-fast --offline",
         "source_commits":[h.split()[0] for h in hooks],
         "add_only":True,
       },
